@@ -3,4 +3,6 @@ import PyXABModel.Model.Box
 import PyXABModel.Model.Partition
 import PyXABModel.Model.FloatInst
 import PyXABModel.Model.TreeBandit
+import PyXABModel.Model.Sweep
+import PyXABModel.Model.SequOOL
 import PyXABModel.Drv.Main
